@@ -774,6 +774,15 @@ func (env *SpecEnv) call(x ECall) (SVal, error) {
 			return SVal{}, err
 		}
 		return env.deref(args[0])
+	case "pathJoin":
+		var as, sorts []string
+		for _, a := range args {
+			as = append(as, a.T.S)
+			sorts = append(sorts, "Str")
+		}
+		fn := fmt.Sprintf("ext$path.Join$%d", len(args))
+		u.declFun(fn, fmt.Sprintf("(declare-fun %s (%s) Str)", fn, strings.Join(sorts, " ")))
+		return SVal{T: Term{sx(fn, as...), SStr}, Typ: types.Typ[types.String]}, nil
 	case "bytes":
 		// content of a []byte as a string value
 		if err := need(1); err != nil {
